@@ -1,0 +1,69 @@
+//! Add-only wrappers for the external verification harness (feature `verif-hooks`).
+//!
+//! Every function here forwards to an existing crate-private function without
+//! changing its behaviour. Nothing in this file is compiled unless the
+//! `verif-hooks` cargo feature is enabled.
+
+use super::types::FixtureDefinition;
+use super::FixtureDatabase;
+use std::path::{Path, PathBuf};
+
+impl FixtureDatabase {
+    /// `analyze_file_fresh` (the scan's no-cleanup analysis path).
+    pub fn verif_analyze_file_fresh(&self, file_path: PathBuf, content: &str) {
+        self.analyze_file_fresh(file_path, content)
+    }
+
+    /// `find_closest_definition`.
+    pub fn verif_find_closest_definition(
+        &self,
+        file_path: &Path,
+        fixture_name: &str,
+    ) -> Option<FixtureDefinition> {
+        self.find_closest_definition(file_path, fixture_name)
+    }
+
+    /// `find_closest_definition_excluding`.
+    pub fn verif_find_closest_definition_excluding(
+        &self,
+        file_path: &Path,
+        fixture_name: &str,
+        exclude: Option<&FixtureDefinition>,
+    ) -> Option<FixtureDefinition> {
+        self.find_closest_definition_excluding(file_path, fixture_name, exclude)
+    }
+
+    /// `is_available_fixture`.
+    pub fn verif_is_available_fixture(&self, file_path: &Path, fixture_name: &str) -> bool {
+        self.is_available_fixture(file_path, fixture_name)
+    }
+
+    /// `evict_cache_if_needed`.
+    pub fn verif_evict_cache_if_needed(&self) {
+        self.evict_cache_if_needed()
+    }
+
+    /// `should_skip_directory`.
+    pub fn verif_should_skip_directory(dir_name: &str) -> bool {
+        Self::should_skip_directory(dir_name)
+    }
+
+    /// `string_utils::format_docstring`.
+    pub fn verif_format_docstring(docstring: String) -> String {
+        super::string_utils::format_docstring(docstring)
+    }
+
+    /// `string_utils::find_function_name_position`.
+    pub fn verif_find_function_name_position(
+        content: &str,
+        line: usize,
+        func_name: &str,
+    ) -> (usize, usize) {
+        super::string_utils::find_function_name_position(content, line, func_name)
+    }
+
+    /// `string_utils::parameter_has_annotation`.
+    pub fn verif_parameter_has_annotation(lines: &[&str], line: usize, end_char: usize) -> bool {
+        super::string_utils::parameter_has_annotation(lines, line, end_char)
+    }
+}
